@@ -160,6 +160,10 @@ func (m *C04Mon) probe(h *Hand, s *pokerface.GameState) {
 				probes = append(probes, probe{Op{Name: a, Seat: i, Amt: amounts()}, class})
 			}
 		}
+		if ev == "RoundStarted" && i == s.Status.CurrentPlayer && hasStr(al, "raise") && !hasStr(al, "call") && s.Status.CurrentWager > 0 {
+			// a raise "to" the standing wager lifts nothing: it is a call, and call was not offered
+			probes = append(probes, probe{Op{Name: "raise", Seat: i, Amt: s.Status.CurrentWager}, "probes_raise_to_standing_wager_without_call"})
+		}
 		if ev != "AnteRequested" {
 			probes = append(probes, probe{Op{Name: "payante", Seat: i}, "probes_seat_forced_bet_wrong_phase"})
 		}
@@ -259,23 +263,28 @@ func (m *C05Mon) Wait(h *Hand, s *pokerface.GameState) {
 		m.closeSeen = true
 		h.Rep.Inc("oracle_evaluations")
 		alive, movable := aliveCount(s), movableCount(s)
-		if m.opened && alive >= 2 {
-			h.Rep.Inc("rounds_closed_checked")
-			cw := s.Status.CurrentWager
+		if alive >= 2 {
+			// the wager to match, independently: the largest wager on the table
+			cw := maxWager(s)
+			if m.opened {
+				h.Rep.Inc("rounds_closed_checked")
+			} else {
+				h.Rep.Inc("streets_closed_without_betting_checked")
+			}
 			for _, p := range s.Players {
 				if p.Fold || p.StackSize == 0 {
 					continue
 				}
 				if p.Wager != cw {
-					h.Fail("C05/closed-unmatched", cause, fmt.Sprintf("round closed but seat %d with chips has wager %d < %d to match", p.Idx, p.Wager, cw))
+					h.Fail("C05/closed-unmatched", cause, fmt.Sprintf("round closed but seat %d with chips has wager %d < %d to match (opened=%v)", p.Idx, p.Wager, cw, m.opened))
 					return
 				}
-				if m.turn[p.Idx] < m.lastUp || m.turn[p.Idx] < 0 {
+				if m.opened && (m.turn[p.Idx] < m.lastUp || m.turn[p.Idx] < 0) {
 					h.Fail("C05/closed-without-turn", cause, fmt.Sprintf("round closed but seat %d has not had a turn since the wager last went up (turn step %d, last increase at step %d)", p.Idx, m.turn[p.Idx], m.lastUp))
 					return
 				}
 			}
-			if m.resetRaise > 0 && m.resetAllin > 0 {
+			if m.opened && m.resetRaise > 0 && m.resetAllin > 0 {
 				h.Rep.Seen("nontrivial", traceKey(h))
 			}
 		}
@@ -302,7 +311,7 @@ func (m *C05Mon) After(h *Hand, pre *pokerface.GameState, op Op, err error, post
 		}
 		m.step++
 		m.turn[i] = m.step
-		up := post.Status.CurrentWager > pre.Status.CurrentWager
+		up := maxWager(post) > maxWager(pre)
 		allin := a.StackSize > 0 && b.StackSize == 0
 		if up {
 			m.lastUp = m.step
@@ -569,4 +578,15 @@ func (m *C06Mon) End(h *Hand, s *pokerface.GameState) {
 	}
 	h.Rep.Seen("nontrivial", traceKey(h))
 	h.Rep.HistAdd("hand_length", int64(len(h.Trace)/10*10))
+}
+
+// the wager to match, independently of what the engine publishes: the largest wager on the table
+func maxWager(s *pokerface.GameState) int64 {
+	var m int64
+	for _, p := range s.Players {
+		if p.Wager > m {
+			m = p.Wager
+		}
+	}
+	return m
 }
